@@ -31,7 +31,7 @@ func init() {
 
 func init() {
 	reg(PropCfg{ID: "C06", Pkg: "c06", Level: "exploration",
-		Rule: "source texts lexed by the repository lexer and by an independent reference lexer written from grammar.ebnf (verif/reflex): identical (kind, decoded value) sequences, identical inclusive spans, errors exactly where the grammar has no token, span partition of all non-blank non-comment runes; table = every string of length <= 3 (quick) / <= 4 (thorough) over a 46-symbol lexical alphabet, random = generated lexeme sequences with all separators; non-trivial = >= 2 tokens with a zero-width adjacency, multi-character operator, escape or separated number; distinct by text",
+		Rule: "source texts lexed by the repository lexer and by an independent reference lexer written from grammar.ebnf (verif/reflex): identical (kind, decoded value) sequences, identical inclusive spans, errors exactly where the grammar has no token, span partition of all non-blank non-comment runes; table = every string of length <= 3 (quick) / <= 4 (thorough) over a 50-symbol lexical alphabet, random = generated lexeme sequences with all separators; non-trivial = >= 2 tokens with a zero-width adjacency, multi-character operator, escape or separated number; distinct by text",
 		Jobs: []Job{
 			{Name: "table", Run: "^TestTableExhaustive$", Shards: [2]int{4, 8}},
 			{Name: "lexemes", Run: "^TestLexemes$", Checks: [2]int{20000, 200000}, Shards: [2]int{4, 16}},
@@ -67,9 +67,10 @@ func init() {
 
 func init() {
 	reg(PropCfg{ID: "C16", Pkg: "c16", Level: "exploration",
-		Rule: "model-based histories: a generated program (functions over scalars, lists, objects, options; global counters/lists; returns from loops/try/match; throwing and fatally failing functions) and a history of 1-10 host invocations (function, argument values; SpawnSync or SpawnAsync+Wait+HandleTermination) on ONE VM; the reference semantics with a persistent global environment gives per call the expected outcome, output and return value; after every completed call the residue is checked (no cores, lock free, finished core: empty call stack/handler stack, at most the return value on the operand stack, memory pointer 0); after a failed call every later call must fail rather than block; non-trivial = history of >= 3 calls over >= 2 functions, or a failing call followed by another call; distinct by program + history",
+		Rule: "model-based histories: a generated program (functions over scalars, lists, objects, options; global counters/lists; returns from loops/try/match; throwing and fatally failing functions) and a history of 1-10 host invocations (function, argument values; SpawnSync or SpawnAsync+Wait+HandleTermination) on ONE VM; the reference semantics with a persistent global environment gives per call the expected outcome, output and return value; after every completed call the residue is checked (no cores, lock free, finished core: empty call stack/handler stack, at most the return value on the operand stack, memory pointer 0); after a failed call every later call must fail rather than block; non-trivial = history of >= 3 calls over >= 2 functions, or a failing call followed by another call; distinct by program + history. Spawning histories: start(round) spawns 1-3 workers which spin, spawn 0-2 helpers each part-way, spin again, count in their own global and print, and returns at once; get(x) reads all counters; arm(w) makes worker w throw at its end; a call is complete when all its threads are (output multiset, counters seen by later get calls, failure of a thread fails the call and the calls after it); GOMAXPROCS 1/2/4/16; non-trivial = nested spawn or failing thread",
 		Jobs: []Job{
 			{Name: "history", Run: "^TestHistory$", Checks: [2]int{800, 5000}, Shards: [2]int{8, 16}},
+			{Name: "spawnhistory", Run: "^TestSpawnHistory$", Checks: [2]int{60, 400}, Shards: [2]int{4, 8}},
 		}})
 }
 
@@ -78,6 +79,7 @@ func init() {
 		Rule: "owned cancel schedule: the harness context's Done() is the poll; for each program (endless loops, counting/printing loops, calls, deep recursion, throw/catch cycles, code inside handlers, sleeps, 1-6 spawned cores) and backend a dry run counts K polls, then cancellation is made visible at the k-th poll for EVERY k <= K when K <= 120 (quick) / 400 (thorough) and for a stratified sample otherwise, plus generated loop programs with random k; oracle: the wait returns (double-checked budget), outcome is a termination interrupt iff the k-th poll happened, polls/writes after the cancelling poll are bounded by the number of live cores, no cores/goroutines are left and the cores lock is free; non-trivial = 1 < k < K; distinct by (program, backend, k)",
 		Jobs: []Job{
 			{Name: "sweep", Run: "^TestTableSweep$", Shards: [2]int{8, 16}},
+			{Name: "hostcancel", Run: "^TestTableHostCancel$", Shards: [2]int{4, 8}},
 			{Name: "random", Run: "^TestRandomPrograms$", Checks: [2]int{400, 3000}, Shards: [2]int{6, 16}},
 		}})
 }
@@ -141,6 +143,7 @@ func init() {
 			{Name: "keys", Run: "^TestTableKeys$", Shards: [2]int{1, 1}},
 			{Name: "members", Run: "^TestTableMembers$", Shards: [2]int{2, 4}},
 			{Name: "index", Run: "^TestTableIndex$", Shards: [2]int{2, 4}},
+			{Name: "mutation", Run: "^TestTableReceiverMutation$", Shards: [2]int{1, 1}},
 		}})
 }
 
@@ -171,6 +174,7 @@ func init() {
 		Rule: "validity predicates over every reported position: (text) generated programs damaged by 1-3 truncations / deletions / insertions of hostile tokens / duplications / unterminated constructs at EOF / a non-ASCII first line, as entry or as imported module: every syntax-error and diagnostic span names a served file, is the whole-file position or has line/column/index that agree with the file's text, start <= end, and renders without failure; (culprit) 20 single-fault rules x 8 contexts (incl. after a non-ASCII line, after a multi-line call, inside an imported module): at least one error-level diagnostic intersects the culprit text; (runtime) 7 runtime failures x call depth 0-3 x entry/imported module x non-ASCII prefix x both backends: the caught object's line/column/filename lie inside the failing construct, uncaught/fatal interrupt spans are valid and touch it; non-trivial = every damaged text / table case; distinct by text or table key",
 		Jobs: []Job{
 			{Name: "culprits", Run: "^TestTableCulprits$", Shards: [2]int{2, 4}},
+			{Name: "pairspans", Run: "^TestTablePairSpans$", Shards: [2]int{8, 8}},
 			{Name: "runtime", Run: "^TestTableRuntime$", Shards: [2]int{4, 8}},
 			{Name: "damaged", Run: "^TestDamagedPrograms$", Checks: [2]int{5000, 40000}, Shards: [2]int{8, 16}},
 		}})
@@ -210,9 +214,10 @@ func init() {
 
 func init() {
 	reg(PropCfg{ID: "C20", Pkg: "c20", Level: "translation_validation",
-		Rule: "metamorphic: (program, seed, passes) with programs from the property's class (generated with pure operands, small non-negative multiplication operands and small numeric literals; the shipped examples the analyzer accepts) x seeds over int64 incl. 0, +-1, extremes x passes 1-4: every variant the transformer returns must print to a text the analyzer accepts and must write the same output with the same outcome on the VM as the original; a transformer panic is a failure; non-trivial = variant text differs from the original; distinct by program + seed + passes",
+		Rule: "metamorphic: (program, seed, passes) with programs from the property's class (generated with pure operands, small non-negative multiplication operands and small numeric literals; the shipped examples the analyzer accepts; three hand-written programs dense with guarded break/continue/return in loop, while, for, match and try, one of them with the loop control already inside while conditions, x 40 (quick) / 400 (thorough) seeds x passes 2, 3, 5) x seeds over int64 incl. 0, +-1, extremes x passes 1-4: every variant the transformer returns must print to a text the analyzer accepts and must write the same output with the same outcome on the VM as the original; a transformer panic is a failure; non-trivial = variant text differs from the original; distinct by program + seed + passes",
 		Jobs: []Job{
 			{Name: "examples", Run: "^TestTableExamples$", Shards: [2]int{6, 8}},
+			{Name: "loopctl", Run: "^TestTableLoopControl$", Shards: [2]int{8, 16}},
 			{Name: "generated", Run: "^TestGenerated$", Checks: [2]int{500, 4000}, Shards: [2]int{8, 16}},
 		}})
 }
